@@ -963,6 +963,8 @@ class OpsMixin:
             return item in container.items
         if isinstance(container, SMap):
             return self.wrap_bool(z3.Select(container.dom, self.to_z3(item)))
+        if isinstance(container, SObj) and "__contains__" in container.fields:
+            return self.call_value(container.fields["__contains__"], [item], {})
         items = self.static_items(container)
         if items is not None:
             parts = []
@@ -1138,10 +1140,12 @@ class OpsMixin:
         else:
             inside = z3.InRe(src.e, z3.Star(z3.Union(*[z3.Re(c) for c in sorted(set(chars))]) if len(set(chars)) > 1 else z3.Re(chars[0])))
         is_in = isinstance(elt.ops[0], ast.In)
+        uniq = sorted(set(chars))
+        some_in = z3.Or(*[z3.Contains(src.e, z3.StringVal(c)) for c in uniq]) if uniq else z3.BoolVal(False)
         if node.func.id == "all":
-            res = inside if is_in else None
+            res = inside if is_in else (z3.Not(some_in) if len(uniq) <= 16 else None)
         else:
-            res = z3.Not(inside) if not is_in else None
+            res = z3.Not(inside) if not is_in else (some_in if len(uniq) <= 16 else None)
         if res is None:
             return None
         return self.wrap_bool(res)
